@@ -472,7 +472,10 @@ SPELLINGS = ["NULL", "true", "False", "x-", "N/A", "12:00", "END", "a b", "Group
              "caf\u00e9", "2001-001"]
 FIXED_SPECS = [[[w, 1]] for w in SPELLINGS] + [[["k", w]] for w in SPELLINGS] + \
     [[[w, {"grp": [["x", 1]]}]] for w in SPELLINGS[:6]] + \
-    [[["s", {"seq": [w, "other"]}]] for w in SPELLINGS[:6]]
+    [[["s", {"seq": [w, "other"]}]] for w in SPELLINGS[:6]] + \
+    [[["^PTR", {"seq": []}]], [["^" + "A" * 31, 1]], [["^P", 1e999]],
+     [["^P", {"seq": [{"seq": [{"seq": [1]}]}]}]], [["^P", {"seq": ["F.IMG", 5]}]],
+     [["k", "MARS ROVER"]], [["k", "it's"]], [["k", {"set": ["two words"]}]]]
 
 
 def fixed_encodes(acc, enc):
